@@ -232,6 +232,14 @@ class Defn:
         self.adj_pool = adj_pool    # slope/intercept pairs for length adjustments (definitions that are not encoded)
         self.rich = rich            # criteria comparing two parameters with differing raw/calibrated selectors
         self.types = make_types(rng)
+        if wide_ctx:
+            # a calibrated 32-bit float: the calibrated values are exact doubles that no float32 holds (seed C18-k1:
+            # the dataset column must not be narrowed to the width of the *encoding*)
+            polyf = ["poly", [fnum(Fraction(8741, 32)), "0"], [fnum(Fraction(2469135, 2)), "1"]]
+            self.types["CALF32_T"] = PT("CALF32_T", ["pt", S("CALF32_T"), "plain",
+                                                     ["float", "32", S("IEEE754"), S(MSB), [polyf, []]]], 32,
+                                        lambda rng, cv=None: "".join(f"{c:08b}" for c in struct.pack(
+                                            ">f", rng.choice([0.0, 1.0, -2.5, 100.25, 0.5, 3.0, -7.75]))))
         self.count = 0
         self.all = []
         self.dyn = {}           # param name -> ("binlen", ref name)  for length-dependent fields
